@@ -117,12 +117,15 @@ class Verdict:
         self._nrep = 0
         self.streams = {}
         self.notes = []
+        self.replaying = None     # set by `./check <id> --replay <file>`: the recorded failure being looked for
+        self.seen = []
 
     def violation(self, replay, no_input=False):
         self.violations += 1
         self._nrep += 1
-        os.makedirs(os.path.join(VERIF, 'replays'), exist_ok=True)
-        path = os.path.join(VERIF, 'replays', '%s-%d-%d.json' % (self.pid, self.seed, self._nrep))
+        sub = 'replays' if self.replaying is None else os.path.join('replays', 'replayed')
+        os.makedirs(os.path.join(VERIF, sub), exist_ok=True)
+        path = os.path.join(VERIF, sub, '%s-%d-%d.json' % (self.pid, self.seed, self._nrep))
         replay = dict(replay)
         replay.setdefault('property', self.pid)
         replay.setdefault('tier', self.tier)
@@ -133,11 +136,16 @@ class Verdict:
         line = 'VIOLATION property=%s replay=%s' % (self.pid, path)
         if no_input:
             line += ' no-failing-input-found'
+        if self.replaying is not None:
+            self.seen.append((json.loads(json.dumps(replay, default=str)), line))
+            return
         print(line, flush=True)
 
     def known_finding(self, fid, what):
         if fid not in [k[0] for k in self.known]:
             self.known.append((fid, what))
+            if self.replaying is not None:
+                return
             print('KNOWN-FINDING: property=%s %s %s' % (self.pid, fid, what), flush=True)
 
     def finish(self):
@@ -155,10 +163,29 @@ class Verdict:
             'known_findings_reported': ['%s %s' % k for k in self.known],
             'notes': self.notes,
         }
+        if self.replaying is not None:
+            return self.finish_replay()
         os.makedirs(os.path.join(VERIF, 'evidence'), exist_ok=True)
         with open(os.path.join(VERIF, 'evidence', self.pid + '.json'), 'w') as f:
             json.dump(ev, f, indent=1, ensure_ascii=True, default=str)
         return 1 if self.violations else 0
+
+    def finish_replay(self):
+        """the check has been re-run with the recorded seed and tier (every random choice derives from the seed, so
+        the recorded input is generated and judged again): say whether the recorded failure is still there"""
+        rec = self.replaying
+        key = lambda d: (d.get('cause'), d.get('clause'), json.dumps(d.get('input'), sort_keys=True, default=str),
+                         json.dumps([b.get('what', b.get('stream')) for b in d.get('broken', [])] if isinstance(d.get('broken'), list) else None))
+        same = [ln for d, ln in self.seen if key(d) == key(rec['data'])]
+        if same:
+            print('REPRODUCED: the recorded failure occurs again on the current tree (%s)' % (rec['data'].get('clause') or rec['data'].get('cause')))
+            print('VIOLATION property=%s replay=%s%s' % (self.pid, rec['path'], ' no-failing-input-found' if same[0].endswith('no-failing-input-found') else ''), flush=True)
+            return 1
+        print('NOT REPRODUCED: the recorded failure does not occur on the current tree')
+        for d, ln in self.seen:
+            print('  (a different failure of this property was seen: %s)' % (d.get('clause') or d.get('cause')))
+            print(ln, flush=True)
+        return 1 if self.seen else 0
 
 
 def machinery_error(msg):
